@@ -35,6 +35,9 @@ type Cfg struct {
 	HdrVer    int  `json:"hdrVer"`
 	Free      bool `json:"free"` // free-running: real goroutines + syncer with a short SyncFrequency
 	IdxFlush  int  `json:"idxFlush"`
+	IdxSync   int  `json:"idxSync"`  // index SyncThld (0: = IdxFlush, every threshold flush is synced)
+	NoIdx     int  `json:"noIdx"`    // percentage of transactions whose entries are all marked non-indexable (needs HdrVer >= 1)
+	FlushMore bool `json:"flushMore"` // driver: many explicit index flushes, synced and not
 	Physical  bool `json:"physical"` // durability observed per physical chunk file (cachestat), store on a disk fs
 	Long      bool `json:"long"`     // long schedule (many transactions: every log rotates several times)
 }
@@ -62,7 +65,11 @@ func (c Cfg) options(syncFreq time.Duration, rec *Recorder) *store.Options {
 	o.WithAHTOptions(store.DefaultAHTOptions().WithSyncThld(c.AhtThld).WithWriteBufferSize(c.AhtBuf))
 	io := store.DefaultIndexOptions().WithMaxNodeSize(512).WithFlushBufferSize(256)
 	if c.IdxFlush > 0 {
-		io.WithFlushThld(c.IdxFlush).WithSyncThld(c.IdxFlush)
+		sy := c.IdxFlush
+		if c.IdxSync > sy {
+			sy = c.IdxSync
+		}
+		io.WithFlushThld(c.IdxFlush).WithSyncThld(sy)
 	}
 	o.WithIndexOptions(io)
 	if rec != nil {
@@ -97,6 +104,11 @@ func genCfg(rng *rand.Rand, k int) Cfg {
 	if c.Free && c.MaxActive < 2 {
 		c.MaxActive = 3
 	}
+	// derived without drawing from rng: non-synced threshold flushes, transactions without anything indexable
+	c.IdxSync = c.IdxFlush * (1 + k%3)
+	if c.HdrVer >= 1 && k%2 == 0 {
+		c.NoIdx = 30
+	}
 	return c
 }
 
@@ -122,6 +134,7 @@ func genRotCfg(rng *rand.Rand, k int) Cfg {
 
 type kv struct {
 	Key, Val []byte
+	NoIdx    bool // entry marked non-indexable: committed, never reaches the index
 }
 
 type txRef struct {
@@ -161,6 +174,22 @@ func readRef(st *store.ImmuStore, id uint64) (*txRef, error) {
 	return r, nil
 }
 
+// randEntriesCfg: with probability NoIdx% a transaction whose entries are ALL non-indexable (keys n*:
+// the indexer only moves the index timestamp forward for it)
+func randEntriesCfg(rng *rand.Rand, c Cfg) []kv {
+	if c.NoIdx > 0 && c.HdrVer >= 1 && rng.Intn(100) < c.NoIdx {
+		n := 1 + rng.Intn(2)
+		var out []kv
+		for i := 0; i < n; i++ {
+			v := make([]byte, 1+rng.Intn(20))
+			rng.Read(v)
+			out = append(out, kv{Key: []byte(fmt.Sprintf("n%d", i)), Val: v, NoIdx: true})
+		}
+		return out
+	}
+	return randEntries(rng)
+}
+
 func randEntries(rng *rand.Rand) []kv {
 	n := 1 + rng.Intn(3)
 	var out []kv
@@ -192,7 +221,12 @@ func commitKVs(st *store.ImmuStore, kvs []kv, async bool, timeout time.Duration)
 		return nil, err
 	}
 	for _, e := range kvs {
-		if err := tx.Set(e.Key, nil, e.Val); err != nil {
+		var md *store.KVMetadata
+		if e.NoIdx {
+			md = store.NewKVMetadata()
+			md.AsNonIndexable(true)
+		}
+		if err := tx.Set(e.Key, md, e.Val); err != nil {
 			tx.Cancel()
 			return nil, err
 		}
@@ -272,7 +306,7 @@ func (w *Workload) runDriven(st *store.ImmuStore, rng *rand.Rand) error {
 		nsteps = 40 + rng.Intn(16)
 	}
 	launch := func() {
-		kvs := randEntries(rng)
+		kvs := randEntriesCfg(rng, w.Cfg)
 		async := rng.Intn(3) == 0
 		pre := st.LastPrecommittedTxID()
 		done := make(chan struct{})
@@ -312,6 +346,9 @@ func (w *Workload) runDriven(st *store.ImmuStore, rng *rand.Rand) error {
 	allowed := uint64(0)
 	for i := 0; i < nsteps; i++ {
 		x := rng.Intn(10)
+		if w.Cfg.FlushMore && x < 6 && x >= 3 {
+			x = 8 // half of the plain commit steps become explicit index flushes
+		}
 		switch {
 		case x < 6:
 			w.Steps = append(w.Steps, "C")
@@ -391,7 +428,7 @@ func (w *Workload) runFree(st *store.ImmuStore, rng *rand.Rand) error {
 		go func() {
 			defer wg.Done()
 			for i := 0; i < per; i++ {
-				kvs := randEntries(crng)
+				kvs := randEntriesCfg(crng, w.Cfg)
 				h, err := commitKVs(st, kvs, crng.Intn(3) == 0, 120*time.Second)
 				if err == nil {
 					w.Rec.Ack(h.ID)
